@@ -183,8 +183,9 @@ type trafficOracle struct {
 	canarySvc         string
 	orig              map[ObjKey]client.Object // user-owned network objects before the rollout (updated by user edits)
 	claimed           bool                     // a BatchRelease has claimed the workload (control annotation) at some point
-	canaryDeletedAt   time.Time
-	canaryDeletedGen  int
+	netWriteAt        time.Time
+	netWriteGen       int
+	netWriteWhat      string
 	pinnedThroughFull bool // the stable Service was never un-pinned before that step started
 	fullStep          bool // a step covering every replica was executed (stable pods legitimately all replaced)
 	resetBR           bool // a continuous-release reset is in progress (gateway must be restored before capacity is released)
@@ -265,7 +266,10 @@ func valueNature(r route, ws int, wm bool) string {
 
 func stepTraffic(st v1beta1.CanaryStep) (share int, match bool) {
 	if len(st.Matches) > 0 {
-		return 0, true
+		if st.Traffic != nil {
+			fmt.Sscanf(*st.Traffic, "%d", &share) // ingress providers: weight and match side by side
+		}
+		return share, true
 	}
 	if st.Traffic != nil {
 		fmt.Sscanf(*st.Traffic, "%d", &share)
@@ -581,21 +585,37 @@ func (o *trafficOracle) checkGraceIsolation(s *Sim, w *Write) {
 	if len(s.Users) < 2 || w.Actor != "rollout-ctrl" {
 		return
 	}
-	if w.Key.GK == gkService && w.Key.Name == o.canarySvc && w.Removed {
-		// an unacknowledged delete (error after commit, crash after commit) legitimately leaves no timer behind
+	// every change of a network object (Services, gateway objects) by the Rollout controller starts a grace period that must
+	// have run out before the Rollout leaves the (finalising) step in which the change was made
+	switch w.Key.GK {
+	case gkService, gkIngress, gkHTTPRoute, gkVS, gkDR, gkTag:
+		// an unacknowledged write (error after commit, crash after commit) legitimately leaves no timer behind
 		if w.Fault == "" {
-			o.canaryDeletedAt = s.Now()
-			o.canaryDeletedGen = s.Proc.gen
+			o.netWriteAt, o.netWriteGen, o.netWriteWhat = s.Now(), s.Proc.gen, w.Verb+" "+w.Key.String()
 		} else {
-			o.canaryDeletedAt = time.Time{}
+			o.netWriteAt = time.Time{}
 		}
 		return
 	}
-	if w.Key.GK != gkRollout || w.Old == nil || w.New == nil || o.canaryDeletedAt.IsZero() {
+	if w.Key.GK != gkRollout || w.Old == nil || w.New == nil {
 		return
 	}
 	os, ns := w.Old.(*v1beta1.Rollout).Status.GetSubStatus(), w.New.(*v1beta1.Rollout).Status.GetSubStatus()
-	if os == nil || ns == nil || os.FinalisingStep != v1beta1.FinalisingStepRemoveCanaryService || ns.FinalisingStep == os.FinalisingStep {
+	if os == nil || ns == nil {
+		return
+	}
+	left := ""
+	switch {
+	case os.FinalisingStep != ns.FinalisingStep && os.FinalisingStep != "":
+		switch os.FinalisingStep {
+		case v1beta1.FinalisingStepRestoreStableService, v1beta1.FinalisingStepRouteTrafficToStable, v1beta1.FinalisingStepRemoveCanaryService, v1beta1.FinalisingStepRouteTrafficToNew:
+			left = string(os.FinalisingStep)
+		}
+	}
+	if left == "" {
+		if os.FinalisingStep != ns.FinalisingStep || os.CurrentStepState != ns.CurrentStepState || os.CurrentStepIndex != ns.CurrentStepIndex {
+			o.netWriteAt = time.Time{} // another step begins: earlier writes belong to the step that is over
+		}
 		return
 	}
 	ro := w.New.(*v1beta1.Rollout)
@@ -606,11 +626,11 @@ func (o *trafficOracle) checkGraceIsolation(s *Sim, w *Write) {
 		}
 	}
 	s.probe("c19.grace-checks")
-	if o.canaryDeletedGen == s.Proc.gen && grace > 0 && s.Now().Sub(o.canaryDeletedAt) < time.Duration(grace)*time.Second-50*time.Millisecond {
-		s.Violate("C19", "I2-grace", "I2/"+o.sc.Family+"/"+o.sc.Traffic, w.Seq, "rollout %s/%s left RemoveCanaryService %.1fs after deleting its canary Service although its grace period is %ds (other rollouts share the process)",
-			o.sc.NS, o.sc.Name, s.Now().Sub(o.canaryDeletedAt).Seconds(), grace)
+	if !o.netWriteAt.IsZero() && o.netWriteGen == s.Proc.gen && grace > 0 && s.Now().Sub(o.netWriteAt) < time.Duration(grace)*time.Second-50*time.Millisecond {
+		s.Violate("C19", "I2-grace", "I2/"+o.sc.Family+"/"+o.sc.Traffic+"/"+left, w.Seq, "rollout %s/%s left %s %.1fs after its last change there (%s) although its grace period is %ds (other rollouts share the process)",
+			o.sc.NS, o.sc.Name, left, s.Now().Sub(o.netWriteAt).Seconds(), o.netWriteWhat, grace)
 	}
-	o.canaryDeletedAt = time.Time{}
+	o.netWriteAt = time.Time{}
 }
 
 // ---- C05: every exit path leaves the cluster as the user configured it
